@@ -426,6 +426,16 @@ fn check_cap(ctx: &mut Ctx, c: &Case, cap: &Captured, req: &str) {
         if c.dl.is_some() {
             ctx.violation("C07", req, e);
         }
+        // an op that does not start where the previous one stopped is also a wrong position (C11), unless the
+        // swap repair accounts for it
+        if let Err(e11) = oracle::carried_exact(r, ops) {
+            let mut c2 = c.clone();
+            c2.repair = true;
+            let fixed = run_capture(&c2).ops.as_ref().map_or(false, |o2| oracle::carried_exact(r, o2).is_ok());
+            if !fixed {
+                ctx.violation("C11", req, e11);
+            }
+        }
         return;
     }
     if let Err(e) = oracle::replay(&c.old, &c.new, c.o_off, c.n_off, r, ops) {
